@@ -1304,6 +1304,15 @@ func genC13(g *genCtx) {
 			}
 		}
 	}
+	// the context node of the evaluation stays where it is while the nodes of a query are drawn (observed through
+	// a hook that calls the query's Select directly; the iterator's MoveNext moves it onto each result by design)
+	for i := 0; i < g.scale(4000, 40000); i++ {
+		d := pool[r.intn(len(pool))]
+		e := r.pick([]string{genMovingPath(r), genFilteredPath(r, 1), genPositional(r), genFlatPath(r), genPathPF(r, 2, nodeTests),
+			genMovingPath(r) + " | " + genFlatPath(r), genFlatPath(r) + "/(" + genMovingPath(r) + ", " + r.pick(nodeTests) + ")",
+			"preceding::" + r.pick(nodeTests) + "[" + genBoolPred(r, 0) + "]", "following::*/" + genMovingPath(r), "(" + genMovingPath(r) + ")[" + genBoolPred(r, 0) + "]"})
+		g.add(&Case{Kind: "ctx", Doc: d, Ctx: pickCtx(r, d), Expr: e})
+	}
 }
 
 func genC14(g *genCtx) {
